@@ -9,7 +9,9 @@ from scipy import special as sps
 from vlib.core import HypClause, EnumClause
 from vlib import util as U
 # shared point / shape / parameter generators of the two polynomial properties live in c09
-from props.c09 import H, make_points, shaped, point_shapes, shape_label, ab_pairs, ab_class, orders, n_class
+from props.c09 import (H, make_points, shaped, point_shapes, array_shapes, shape_label, shape_tuple, size_of, ab_pairs, ab_class, orders, n_class,
+                       variants, var_of, var_labels, present, as32, contain, rtol_of, reuse_check, call, settle_kind, HERMITES, nm_pairs as nm_pairs_ext,
+                       with_big_shapes)
 
 RULE = ("Values: Hypothesis draws family, order (0..3 forced, otherwise uniform to 40 quick / 120 thorough; Zernike n to 30 / 60, "
         "Dickson n to 40 / 80, Q2d n to 12, |m| to 10; Gram matrices to N = 40 / 120 for the Jacobi family - capped at 40 when a weight "
@@ -26,11 +28,21 @@ RULE = ("Values: Hypothesis draws family, order (0..3 forced, otherwise uniform 
         "complex step of the value routine.  For Qbfs n>5 and 2D-Q the definition is checked through its uniqueness theorem: "
         "complete sets n=0..N whose slope Gram matrix is the identity, each member a polynomial of degree n in u^2 (Chebyshev "
         "interpolation on [0,1]: no coefficient above n) with leading sign (-1)^n, are the Gram-Schmidt polynomials of Forbes.  "
-        "Non-trivial = order >= 6 or non-tabulated shape parameter or scalar / N-D points or a Gram entry with m != n.")
+        "Every value / sequence case also draws HOW the arguments are presented (sub-dict v, shared with C09): dtype of the evaluation points "
+        "(float64, float32 - checked to 3e-4 (n+10) of the largest value, n <= 150 -, complex128 with zero imaginary part and, for the routines the unchanged "
+        "code accepts them in - the single-order evaluators, Dickson, XY / Hopkins, Qbfs / Qcon / Q2d, zernike_nm with a radial Jacobi order >= 1 - "
+        "integer-valued points as int64/int32/int16/int8 arrays, numpy integer scalars and Python ints), numpy scalars next to Python floats and 0-D "
+        "arrays, memory layout of N-D arrays (C, Fortran, transposed view, strided view; also for the quadrature grids of the Gram clauses), order "
+        "lists as list / tuple / ndarray, a float32 evaluation immediately before the checked one, rarely an array of more than 2**16 points, and a "
+        "re-use check (kept result unchanged after a call with another order; after the caller overwrites its result in place the same call is still "
+        "right); every array / list argument must come back unchanged.  Zernike (n, m) include the extremes m = +-n, 0 / +-1 and n up to 120.  "
+        "Non-trivial = order >= 6 or non-tabulated shape parameter or scalar / N-D points or a Gram entry with m != n or a non-default presentation "
+        "of the arguments.")
 ASSUMPTIONS = [
     "scipy.special eval_jacobi/legendre/chebyt/chebyu/hermite/hermitenorm/genlaguerre and roots_jacobi are correct to ~1e-13 "
     "for degree <= 120 (roots_jacobi is cross-checked per case against the exact zeroth moment and rejected otherwise)",
     "Python integer / Fraction arithmetic is exact",
+    "float32 input is only required to reproduce the float64 answer to 3e-4 (n + 10) of the largest value, n <= 150 (observed <= 2e-7 (n + 10) on the unchanged code)",
     "complex-step differentiation of the Q value routines (pure arithmetic) gives their slopes to rounding",
     "Forbes' inner products: <f,g> = (2/pi) int_0^1 f g (1-u^2)^-1/2 du for Qbfs slopes, (1/pi^2) int int grad f . grad g "
     "(1-u^2)^-1/2 du dtheta for 2D-Q (oe-18-19-19700, oe-20-3-2483); leading sign (-1)^n follows from positive f_n in their recurrences",
@@ -94,7 +106,7 @@ def fam_params(fam):
     if fam == 'jacobi':
         return ab_pairs()
     if fam == 'laguerre':
-        return st.one_of(st.sampled_from([0, 0.5, 1, 2, -0.5]), U.nice_float(-0.99, 6.0)).map(lambda a: [a])
+        return st.one_of(st.sampled_from([0, 0.5, 1, 2, -0.5, -0.99, 6.0]), U.nice_float(-0.99, 6.0)).map(lambda a: [a])
     return st.just([])
 
 
@@ -107,33 +119,46 @@ def strat_values(tier):
         if fam in HIGH_FAMS:
             return st.one_of(orders(tier), orders(tier), orders(tier), st.sampled_from(HIGH_ORDERS))
         return orders(tier)
-    return st.sampled_from(FAMS).flatmap(lambda fam: st.fixed_dictionaries({
-        'fam': st.just(fam), 'n': n_of(fam), 'p': fam_params(fam), 'shape': point_shapes(), 'edge': st.booleans(), 'seed': U.seeds}))
+    return with_big_shapes(st.sampled_from(FAMS).flatmap(lambda fam: st.fixed_dictionaries({
+        'fam': st.just(fam), 'n': n_of(fam), 'p': fam_params(fam), 'shape': point_shapes(), 'edge': st.booleans(), 'seed': U.seeds, 'v': variants()})))
 
 
 def check_values(case, ctx):
-    """jacobi / legendre / cheby1-4 / hermite_He / hermite_H / laguerre (n, ..., x) == scipy.special (and closed trig forms), shape of x kept."""
+    """jacobi / legendre / cheby1-4 / hermite_He / hermite_H / laguerre (n, ..., x) == scipy.special (and closed trig forms), shape of x kept,
+    for every presentation of x (dtype, layout, scalar kind), with the arguments left unchanged and the results independent of each other."""
     fam, n, p, shape = case['fam'], case['n'], case['p'], case['shape']
     fn, (lo, hi) = fam_table()[fam]
-    x, base = make_points(case['seed'], shape, lo, hi, case['edge'])
-    ctx.label(fam, n_class(n), shape_label(shape), 'edge' if case['edge'] else 'interior')
+    v = settle_kind(var_of(case), fam, n)
+    x, base = make_points(case['seed'], shape, lo, hi, case['edge'], kind=v['xkind'])
+    xarg = present(x, shape, v)
+    ctx.label(fam, n_class(n), shape_label(shape), 'edge' if case['edge'] else 'interior', 'size>2^16' if size_of(shape) > 65536 else 'size<=2^16')
     if fam == 'jacobi':
         ctx.label(ab_class(*p))
-    ctx.nt(n >= 6 or shape == 'pyfloat' or len(shape) != 1 or (fam == 'jacobi' and ab_class(*p) != 'ab:tabulated') or
+    nt = var_labels(ctx, v, shape)
+    ctx.nt(nt or n >= 6 or isinstance(shape, str) or len(shape) != 1 or (fam == 'jacobi' and ab_class(*p) != 'ab:tabulated') or
            (fam == 'laguerre' and p[0] not in (0, 0.5, 1)))
+    if v['pre32']:
+        g32 = call(ctx, 'float32', fn, n, *p, as32(xarg))
+        U.check_shape(g32, shape_tuple(shape), fam + ':float32', '%s(%d, %s, float32 x)' % (fam, n, p))
     want_full = ref_value(fam, n, p, base)
     scale = float(np.max(np.abs(want_full)))
-    got = ctx.call(fn, n, *p, x)
     want = shaped(want_full, shape)
     bucket = '%s:%s' % (fam, n_class(n))
-    U.check_shape(got, np.shape(want), bucket, '%s(%d, %s, x) for x of shape %s' % (fam, n, p, shape))
-    U.check_close(got, want, RT, bucket, '%s(n=%d, params=%s) vs scipy.special' % (fam, n, p), atol=RT * scale)
+    rt = rtol_of(v, n, RT)
+
+    def verify(got, bucket):
+        U.check_shape(got, np.shape(want), bucket, '%s(%d, %s, x) for x of shape %s' % (fam, n, p, shape))
+        U.check_close(got, want, rt, bucket, '%s(n=%d, params=%s, x: %s %s) vs scipy.special' % (fam, n, p, v['xkind'], shape_label(shape)), atol=rt * scale)
+    got = call(ctx, n_class(n), fn, n, *p, xarg)
+    verify(got, bucket)
+    n2 = n + 1 if not (fam in HERMITES and v['xkind'] == 'int' and n + 1 > 15) else n - 1
+    reuse_check(ctx, v, bucket, got, (xarg,), lambda: ctx.call(fn, n2, *p, xarg), lambda: ctx.call(fn, n, *p, xarg), verify)
     if fam in ('cheby1', 'cheby2', 'cheby3', 'cheby4'):
         inner = base[np.abs(base) <= 0.95]
         if inner.size:
             g = ctx.call(fn, n, inner)
             t = trig_value(fam, n, inner)
-            U.check_close(g, t, RT, bucket + ':trig', '%s(n=%d) vs closed trigonometric form' % (fam, n), atol=RT * float(np.max(np.abs(t))))
+            U.check_close(g, t, RT, bucket + ':trig', '%s(n=%d) vs closed trigonometric form' % (fam, n), atol=RT * max(1.0, float(np.max(np.abs(t)))))   # natural scale of T, U, V, W: >= 1
         # normalisation at the end points, exactly as the definitions fix it
         one = {'cheby1': 1.0, 'cheby2': n + 1.0, 'cheby3': 1.0, 'cheby4': 2 * n + 1.0}[fam]
         mone = {'cheby1': (-1.0) ** n, 'cheby2': (-1.0) ** n * (n + 1), 'cheby3': (-1.0) ** n * (2 * n + 1), 'cheby4': (-1.0) ** n}[fam]
@@ -164,9 +189,9 @@ def dickson_exact(kind, n, a, x):
 def strat_dickson(tier):
     N = {'quick': 40, 'thorough': 80}[tier]
     return st.fixed_dictionaries({
-        'kind': st.sampled_from([1, 2]), 'n': st.one_of(st.sampled_from([0, 1, 2, 3]), st.integers(0, N)),
-        'a': st.one_of(st.sampled_from([-1, 0, 1, 2, -2, 0.5]), U.nice_float(-3.0, 3.0)),
-        'shape': point_shapes(), 'edge': st.booleans(), 'seed': U.seeds})
+        'kind': st.sampled_from([1, 2]), 'n': st.one_of(st.sampled_from([0, 1, 2, 3]), st.integers(0, N)),     # the exact rational oracle costs O(n^2) big-number operations per point
+        'a': st.one_of(st.sampled_from([-1, 0, 1, 2, -2, 0.5]), U.nice_float(-3.0, 3.0), st.sampled_from([-3.0, 3.0, 1e-300, -1e-12])),
+        'shape': point_shapes(), 'edge': st.booleans(), 'seed': U.seeds, 'v': variants()})
 
 
 def check_dickson(case, ctx):
@@ -174,15 +199,31 @@ def check_dickson(case, ctx):
     from prysm.polynomials import dickson1, dickson2
     kind, n, a, shape = case['kind'], case['n'], case['a'], case['shape']
     fn = dickson1 if kind == 1 else dickson2
-    x, base = make_points(case['seed'], shape, -3.0, 3.0, case['edge'], edges=(0.0, 3.0))
+    v = var_of(case)
+    # integer points and an integer alpha make the unchanged recurrence run in integer arithmetic: exact below 2^63 (n <= 20 on
+    # [-3,3] with |alpha| <= 3, 64-bit only); float32 values leave the single-precision range beyond n ~ 60
+    if (v['xkind'] == 'int' and n > 20) or (v['xkind'] == 'f32' and n > 60):
+        v['xkind'] = 'f64'
+    v['itype'] = 'int64'
+    x, base = make_points(case['seed'], shape, -3.0, 3.0, case['edge'], edges=(0.0, 3.0), kind=v['xkind'])
+    xarg = present(x, shape, v)
     ctx.label('dickson%d' % kind, n_class(n), shape_label(shape), 'a=0' if a == 0 else 'a<0' if a < 0 else 'a>0')
-    ctx.nt(n >= 6 or a not in (-1, 0, 1) or shape == 'pyfloat' or len(shape) != 1)
+    nt = var_labels(ctx, v, shape)
+    ctx.nt(nt or n >= 6 or a not in (-1, 0, 1) or isinstance(shape, str) or len(shape) != 1)
+    if v['pre32']:
+        call(ctx, 'float32', fn, n, a, as32(xarg))
     want_full = dickson_exact(kind, n, a, base)
-    got = ctx.call(fn, n, a, x)
     want = shaped(want_full, shape)
     bucket = 'dickson%d:%s' % (kind, n_class(n))
-    U.check_shape(got, np.shape(want), bucket, 'dickson%d(%d, %r, x) for x of shape %s' % (kind, n, a, shape))
-    U.check_close(got, want, RT, bucket, 'dickson%d(n=%d, alpha=%r) vs exact closed sum' % (kind, n, a), atol=RT * float(np.max(np.abs(want_full))))
+    rt = rtol_of(v, n, RT)
+
+    def verify(got, bucket):
+        U.check_shape(got, np.shape(want), bucket, 'dickson%d(%d, %r, x) for x of shape %s' % (kind, n, a, shape))
+        U.check_close(got, want, rt, bucket, 'dickson%d(n=%d, alpha=%r, x: %s %s) vs exact closed sum' % (kind, n, a, v['xkind'], shape_label(shape)),
+                      atol=rt * float(np.max(np.abs(want_full))))
+    got = call(ctx, n_class(n), fn, n, a, xarg)
+    verify(got, bucket)
+    reuse_check(ctx, v, bucket, got, (xarg,), lambda: ctx.call(fn, n + 1 if n < 20 else n - 1, a, xarg), lambda: ctx.call(fn, n, a, xarg), verify)
     if kind == 1:
         r = U.rng_of(case['seed'], 9)
         u = r.uniform(0.5, 2.0, 8) * r.choice([-1.0, 1.0], 8)
@@ -196,8 +237,9 @@ def strat_xy(tier):
     e = st.one_of(st.sampled_from([0, 0, 1, 2]), st.integers(0, 12))
     s = st.integers(1, 6)
     return st.fixed_dictionaries({
-        'fn': st.sampled_from(['xy', 'xy', 'hopkins']), 'm': e, 'n': e, 'a': st.integers(-6, 6), 'b': e, 'c': e,
-        'grid': st.sampled_from(['mesh', 'mesh', 'free']), 'gshape': st.tuples(s, s).map(list), 'shape': point_shapes(), 'seed': U.seeds})
+        'fn': st.sampled_from(['xy', 'xy', 'hopkins']), 'm': e, 'n': e, 'a': st.one_of(st.integers(-6, 6), st.sampled_from([-40, 40])), 'b': e, 'c': e,
+        'grid': st.sampled_from(['mesh', 'mesh', 'free']), 'gshape': st.tuples(s, s).map(list), 'shape': point_shapes(), 'seed': U.seeds,
+        'v': variants(('f64', 'f32', 'int'))})
 
 
 def ipow(x, k):
@@ -211,37 +253,68 @@ def check_xy(case, ctx):
     """xy(m, n, x, y) == x^m y^n (meshgrid with cartesian_grid=True, any shape with False); hopkins(a,b,c,r,t,H) == cos/sin(|a| t) r^b H^c."""
     from prysm.polynomials import xy, hopkins
     r = U.rng_of(case['seed'], 1)
+    v = var_of(case, ('f64', 'f32', 'int'))
+    if v['itype'] in ('int8', 'int16'):
+        v['itype'] = 'int32'       # 2^24 must fit: integer points are raised to integer powers in integer arithmetic
+    kind = v['xkind']
+    rt = rtol_of(v, 24, 1e-12)
     if case['fn'] == 'xy':
         m, n, grid = case['m'], case['n'], case['grid']
         ctx.label('xy', 'grid:' + grid, 'zero-exponent' if 0 in (m, n) else 'exponents>0')
-        ctx.nt(m + n >= 6 or 0 in (m, n) or grid == 'free')
         if grid == 'mesh':
             ny, nx = case['gshape']
+            shape = [ny, nx]
             xv, yv = r.uniform(-2, 2, nx), r.uniform(-2, 2, ny)
+            if kind == 'int':
+                xv, yv = np.trunc(xv), np.trunc(yv)
+            if kind == 'f32':
+                xv, yv = xv.astype(np.float32).astype(float), yv.astype(np.float32).astype(float)
             x, y = np.meshgrid(xv, yv)
             ctx.label('square' if ny == nx else 'non-square')
-            got = ctx.call(xy, m, n, x, y)
+            kw = {}
         else:
             shape = case['shape']
             ctx.label(shape_label(shape))
-            x, _ = make_points(case['seed'], shape, -2.0, 2.0, False, salt=1)
-            y, _ = make_points(case['seed'], shape, -2.0, 2.0, False, salt=2)
-            got = ctx.call(xy, m, n, x, y, cartesian_grid=False)
+            x, _ = make_points(case['seed'], shape, -2.0, 2.0, False, salt=1, kind=kind)
+            y, _ = make_points(case['seed'], shape, -2.0, 2.0, False, salt=2, kind=kind)
+            kw = {'cartesian_grid': False}
+        nt = var_labels(ctx, v, shape)
+        ctx.nt(nt or m + n >= 6 or 0 in (m, n) or grid == 'free')
+        xarg, yarg = present(x, shape, v), present(y, shape, v, layout=v['layout2'])
         want = ipow(x, m) * ipow(y, n)
-        U.check_shape(got, np.shape(want), 'xy', 'xy(%d,%d) %s' % (m, n, grid))
-        U.check_close(got, want, 1e-12, 'xy', 'xy(m=%d, n=%d) vs x^m y^n' % (m, n))
+
+        def verify(got, bucket):
+            U.check_shape(got, np.shape(want), bucket, 'xy(%d,%d) %s' % (m, n, grid))
+            U.check_close(got, want, rt, bucket, 'xy(m=%d, n=%d, x: %s) vs x^m y^n' % (m, n, kind))
+        if v['pre32']:
+            call(ctx, 'float32', xy, m, n, as32(xarg), as32(yarg), **kw)
+        got = call(ctx, grid, xy, m, n, xarg, yarg, **kw)
+        verify(got, 'xy')
+        reuse_check(ctx, v, 'xy', got, (xarg, yarg), lambda: ctx.call(xy, n + 1, m, xarg, yarg, **kw), lambda: ctx.call(xy, m, n, xarg, yarg, **kw), verify)
     else:
         a, b, c, shape = case['a'], case['b'], case['c'], case['shape']
-        ctx.label('hopkins', 'a<0' if a < 0 else 'a=0' if a == 0 else 'a>0', shape_label(shape))
+        ctx.label('hopkins', 'a<0' if a < 0 else 'a=0' if a == 0 else 'a>0', shape_label(shape), '|a|>6' if abs(a) > 6 else '|a|<=6')
+        var_labels(ctx, v, shape)
         ctx.nt(True)
-        rr, _ = make_points(case['seed'], shape, 0.0, 1.0, True, salt=1)
-        t, _ = make_points(case['seed'], shape, -math.pi, 2 * math.pi, False, salt=2)
-        Hh, _ = make_points(case['seed'], shape, -1.0, 1.0, False, salt=3)
-        got = ctx.call(hopkins, a, b, c, rr, t, Hh)
+        rr, _ = make_points(case['seed'], shape, 0.0, 1.0, True, salt=1, kind=kind)
+        t, _ = make_points(case['seed'], shape, -math.pi, 2 * math.pi, False, salt=2, kind='f32' if kind == 'f32' else 'f64')
+        Hh, _ = make_points(case['seed'], shape, -1.0, 1.0, False, salt=3, kind=kind)
+        rarg = present(rr, shape, v)
+        targ = present(t, shape, v, layout=v['layout2'], kind='f32' if kind == 'f32' else 'f64')
+        harg = present(Hh, shape, v)
         az = np.sin(abs(a) * np.asarray(t)) if a < 0 else np.cos(a * np.asarray(t))
         want = az * ipow(rr, b) * ipow(Hh, c)
-        U.check_shape(got, np.shape(want), 'hopkins', 'hopkins(%d,%d,%d)' % (a, b, c))
-        U.check_close(got, want, 1e-12, 'hopkins', 'hopkins(a=%d, b=%d, c=%d) vs cos/sin(|a| t) r^b H^c' % (a, b, c), atol=1e-15)
+        rth = max(rt, 1e-5 * (1 + abs(a))) if kind == 'f32' else rt      # float32 angle: |a| * eps32 * |t| in the argument of cos / sin
+
+        def verify(got, bucket):
+            U.check_shape(got, np.shape(want), bucket, 'hopkins(%d,%d,%d)' % (a, b, c))
+            U.check_close(got, want, rth, bucket, 'hopkins(a=%d, b=%d, c=%d, r: %s) vs cos/sin(|a| t) r^b H^c' % (a, b, c, kind), atol=1e-15 if kind != 'f32' else rth)
+        if v['pre32']:
+            call(ctx, 'float32', hopkins, a, b, c, as32(rarg), as32(targ), as32(harg))
+        got = call(ctx, 'a<0' if a < 0 else 'a>=0', hopkins, a, b, c, rarg, targ, harg)
+        verify(got, 'hopkins')
+        reuse_check(ctx, v, 'hopkins', got, (rarg, targ, harg), lambda: ctx.call(hopkins, -a, c, b + 1, rarg, targ, harg),
+                    lambda: ctx.call(hopkins, a, b, c, rarg, targ, harg), verify)
 
 
 # ---- Zernike -------------------------------------------------------------------------------------------
@@ -263,9 +336,14 @@ def nm_pairs(nmax):
     return st.one_of(st.integers(0, nmax), st.integers(0, 8)).flatmap(lambda n: st.integers(0, n).map(lambda k: [n, -n + 2 * k]))
 
 
+ZERNIKE_HIGH = [80, 100, 120]      # unchanged code: <= 1e-14 against the exact sum up to n = 200; the exact oracle costs O(n^2) big-number operations
+
+
 def strat_zernike(tier):
     nmax = {'quick': 30, 'thorough': 60}[tier]
-    return st.fixed_dictionaries({'nm': nm_pairs(nmax), 'norm': st.booleans(), 'shape': point_shapes(), 'edge': st.booleans(), 'seed': U.seeds})
+    nm = st.one_of(nm_pairs_ext(nmax), nm_pairs_ext(nmax), nm_pairs_ext(nmax), nm_pairs_ext(nmax, ZERNIKE_HIGH))   # incl. the extremes m = +-n, 0 / +-1
+    return st.fixed_dictionaries({'nm': nm, 'norm': st.booleans(), 'shape': point_shapes(), 'edge': st.booleans(), 'seed': U.seeds,
+                                  'v': variants(('f64', 'f32', 'int'))})
 
 
 def check_zernike(case, ctx):
@@ -273,19 +351,40 @@ def check_zernike(case, ctx):
     from prysm.polynomials import zernike_nm, zernike_norm
     (n, m), norm, shape = case['nm'], case['norm'], case['shape']
     am = abs(m)
-    r, rbase = make_points(case['seed'], shape, 0.0, 1.0, case['edge'], salt=1)
-    t, tbase = make_points(case['seed'], shape, -math.pi, 2 * math.pi, False, salt=2)
+    v = var_of(case, ('f64', 'f32', 'int'))
+    # integer-typed radii are accepted by the unchanged zernike_nm only when the radial Jacobi order (n-|m|)/2 is >= 1 (order 0
+    # scales an integer array by a float in place); |m| itself must fit the integer type; float32 range: see C09
+    if v['xkind'] == 'int' and (n - am) // 2 == 0:
+        v['xkind'] = 'f64'
+    if n > 100:
+        v['itype'] = 'int64'
+        if v['xkind'] == 'f32':
+            v['xkind'] = 'f64'
+    kind = v['xkind']
+    r, rbase = make_points(case['seed'], shape, 0.0, 1.0, case['edge'], salt=1, kind=kind)
+    t, tbase = make_points(case['seed'], shape, -math.pi, 2 * math.pi, False, salt=2, kind='f32' if kind == 'f32' else 'f64')
+    rarg = present(r, shape, v)
+    targ = present(t, shape, v, layout=v['layout2'], kind='f32' if kind == 'f32' else 'f64')
     ctx.label(n_class(n), 'm=0' if m == 0 else 'm<0' if m < 0 else 'm>0', 'norm' if norm else 'no-norm', shape_label(shape),
-              'edge' if case['edge'] else 'interior')
-    ctx.nt(n >= 6 or shape == 'pyfloat' or len(shape) != 1)
+              'edge' if case['edge'] else 'interior', 'm=+-n' if am == n and n else 'm-inner')
+    nt = var_labels(ctx, v, shape)
+    ctx.nt(nt or n >= 6 or isinstance(shape, str) or len(shape) != 1)
+    if v['pre32']:
+        call(ctx, 'float32', zernike_nm, n, m, as32(rarg), as32(targ), norm=norm)
     az = np.ones_like(tbase) if m == 0 else np.sin(am * tbase) if m < 0 else np.cos(m * tbase)
     N = math.sqrt(2 * (n + 1) / (2 if m == 0 else 1)) if norm else 1.0
     want_full = N * zernike_radial_exact(n, am, rbase) * az
-    got = ctx.call(zernike_nm, n, m, r, t, norm=norm)
     want = shaped(want_full, shape)
     bucket = 'zernike_nm:%s' % ('m=0' if m == 0 else 'm!=0')
-    U.check_shape(got, np.shape(want), bucket, 'zernike_nm(%d,%d) for r of shape %s' % (n, m, shape))
-    U.check_close(got, want, RT, bucket, 'zernike_nm(n=%d, m=%d, norm=%s) vs explicit radial sum' % (n, m, norm), atol=RT * N)
+    rt = rtol_of(v, n, RT)
+
+    def verify(got, bucket):
+        U.check_shape(got, np.shape(want), bucket, 'zernike_nm(%d,%d) for r of shape %s' % (n, m, shape))
+        U.check_close(got, want, rt, bucket, 'zernike_nm(n=%d, m=%d, norm=%s, r: %s %s) vs explicit radial sum' % (n, m, norm, kind, shape_label(shape)), atol=rt * N)
+    got = call(ctx, 'm=0' if m == 0 else 'm!=0', zernike_nm, n, m, rarg, targ, norm=norm)
+    verify(got, bucket)
+    reuse_check(ctx, v, bucket, got, (rarg, targ), lambda: ctx.call(zernike_nm, n + 2, m, rarg, targ, norm=not norm),
+                lambda: ctx.call(zernike_nm, n, m, rarg, targ, norm=norm), verify)
     zn = ctx.call(zernike_norm, n, m)
     ctx.require(abs(zn - math.sqrt(2 * (n + 1) / (2 if m == 0 else 1))) <= 1e-12 * zn, 'zernike_norm',
                 'zernike_norm(%d,%d) = %r' % (n, m, zn))
@@ -304,12 +403,13 @@ def disk_quadrature(nmax, mmax):
     return R, TH, W
 
 
-def zernike_gram_check(ctx, nms, norm, bucket):
+def zernike_gram_check(ctx, nms, norm, bucket, layout='C'):
     from prysm.polynomials import zernike_nm
     nmax = max(n for n, _ in nms)
     mmax = max(abs(m) for _, m in nms)
     R, TH, W = disk_quadrature(nmax, mmax)
-    Z = np.array([ctx.call(zernike_nm, n, m, R, TH, norm=norm).ravel() for n, m in nms])
+    R, TH = U.relayout(R, layout), U.relayout(TH, layout)       # same nodes, another memory layout of the two grids
+    Z = np.array([np.asarray(call(ctx, 'gram', zernike_nm, n, m, R, TH, norm=norm)).ravel() for n, m in nms])
     G = (Z * W.ravel()) @ Z.T
     want = np.diag([1.0 if norm else (2 if m == 0 else 1) / (2 * (n + 1)) for n, m in nms])
 
@@ -326,7 +426,7 @@ def strat_zernike_gram(tier):
         return [[abs(m) + 2 * (n0 + i), m] for i in range(k)]
     fam = st.tuples(st.integers(-10, 10), st.integers(0, 4), st.integers(2, 5)).map(same_m)
     free = st.lists(nm_pairs(nmax), min_size=2, max_size=12)
-    return st.fixed_dictionaries({'nms': st.tuples(fam, free).map(lambda t: t[0] + t[1]), 'norm': st.sampled_from([True, True, False])})
+    return st.fixed_dictionaries({'nms': st.tuples(fam, free).map(lambda t: t[0] + t[1]), 'norm': st.sampled_from([True, True, False]), 'layout': U.layouts})
 
 
 def check_zernike_gram(case, ctx):
@@ -336,15 +436,15 @@ def check_zernike_gram(case, ctx):
         if list(e) not in nms:
             nms.append(list(e))
     ctx.nt(True)
-    ctx.label('norm' if case['norm'] else 'no-norm', 'modes=%d' % (len(nms) // 4 * 4))
+    ctx.label('norm' if case['norm'] else 'no-norm', 'modes=%d' % (len(nms) // 4 * 4), 'layout:' + case.get('layout', 'C'))
     ctx.tally('gram_entries', len(nms) ** 2)
-    zernike_gram_check(ctx, nms, case['norm'], 'zernike_gram')
+    zernike_gram_check(ctx, nms, case['norm'], 'zernike_gram', case.get('layout', 'C'))
 
 
 def enum_zernike_complete(tier):
-    for N in {'quick': [3, 6, 10, 14], 'thorough': [3, 6, 10, 14, 20, 28, 36, 44]}[tier]:
-        yield {'N': N, 'norm': True}
-    yield {'N': 8, 'norm': False}
+    for i, N in enumerate({'quick': [3, 6, 10, 14], 'thorough': [3, 6, 10, 14, 20, 28, 36, 44]}[tier]):
+        yield {'N': N, 'norm': True, 'layout': U.LAYOUTS[1:][i % 4]}
+    yield {'N': 8, 'norm': False, 'layout': 'strided'}
 
 
 def check_zernike_complete(case, ctx):
@@ -353,7 +453,7 @@ def check_zernike_complete(case, ctx):
     nms = [[n, m] for n in range(N + 1) for m in range(-n, n + 1, 2)]
     ctx.nt(True)
     ctx.tally('gram_entries', len(nms) ** 2)
-    zernike_gram_check(ctx, nms, case['norm'], 'zernike_gram')
+    zernike_gram_check(ctx, nms, case['norm'], 'zernike_gram', case.get('layout', 'C'))
 
 
 # ---- Jacobi family orthogonality -------------------------------------------------------------------------
@@ -384,7 +484,8 @@ def strat_jacobi_gram(tier):
     N = {'quick': 40, 'thorough': 120}[tier]
     fam = st.sampled_from(['jacobi', 'jacobi', 'jacobi', 'legendre', 'cheby1', 'cheby2', 'cheby3', 'cheby4'])
     return fam.flatmap(lambda f: st.fixed_dictionaries({
-        'fam': st.just(f), 'p': ab_pairs() if f == 'jacobi' else st.just([]), 'N': st.one_of(st.integers(1, N), st.integers(1, 12))}))
+        'fam': st.just(f), 'p': ab_pairs() if f == 'jacobi' else st.just([]), 'N': st.one_of(st.integers(1, N), st.integers(1, 12)),
+        'layout': st.sampled_from(['C', 'strided', 'column'])}))
 
 
 def check_jacobi_gram(case, ctx):
@@ -405,7 +506,15 @@ def check_jacobi_gram(case, ctx):
     mu0 = jacobi_h(0, a, b)
     if not (np.all(np.isfinite(xg)) and np.all(np.isfinite(wg)) and abs(float(np.sum(wg)) - mu0) <= 1e-11 * mu0):
         ctx.exclude('scipy roots_jacobi does not reproduce the zeroth moment to 1e-11')
-    V = np.array([np.broadcast_to(ctx.call(fn, n, *p, xg), xg.shape) for n in range(N + 1)])
+    lay = case.get('layout', 'C')
+    ctx.label('nodes:' + lay)
+    xarg = U.relayout(xg, 'strided') if lay == 'strided' else xg[:, None] if lay == 'column' else xg       # the same nodes as a strided view / an (N+1, 1) column
+    rows = []
+    for n in range(N + 1):
+        g = np.asarray(call(ctx, 'gram', fn, n, *p, xarg))
+        U.check_shape(g, np.shape(xarg), '%s_gram' % fam, '%s(%d, ..., nodes as %s)' % (fam, n, lay))
+        rows.append(g.reshape(xg.shape))
+    V = np.array(rows)
     G = (V * wg) @ V.T
     h = np.array([family_h(fam, n, a, b) for n in range(N + 1)])
     Gn = G / np.sqrt(np.outer(h, h))
@@ -426,52 +535,86 @@ def qbfs_table(n, x):
 
 def strat_q_values(tier):
     return st.fixed_dictionaries({
-        'fn': st.sampled_from(['Qcon', 'Qbfs', 'Qbfs', 'Q2d']), 'n': orders(tier), 'n5': st.integers(0, 5), 'nq': st.integers(0, 12),
-        'm': st.integers(-10, 10), 'shape': point_shapes(), 'edge': st.booleans(), 'seed': U.seeds})
+        'fn': st.sampled_from(['Qcon', 'Qbfs', 'Qbfs', 'Q2d']), 'n': orders(tier), 'n5': st.integers(0, 5), 'nq': st.one_of(st.integers(0, 12), st.sampled_from([20, 30])),
+        'm': st.one_of(st.integers(-10, 10), st.sampled_from([-20, 20, 1, -1, 0])), 'shape': point_shapes(), 'edge': st.booleans(), 'seed': U.seeds, 'v': variants()})
 
 
 def check_q_values(case, ctx):
-    """Qcon == u^4 P_n^(0,4)(2u^2-1) (scipy); Qbfs n<=5 == Forbes' tabulated polynomials; Qbfs / Q2d are point functions (any shape == flat evaluation), Q2d(n,0) == Qbfs(n)."""
+    """Qcon == u^4 P_n^(0,4)(2u^2-1) (scipy); Qbfs n<=5 == Forbes' tabulated polynomials; Qbfs / Q2d are point functions (any shape / dtype /
+    layout == flat float64 evaluation), Q2d(n,0) == Qbfs(n)."""
     from prysm.polynomials import Qbfs, Qcon, Q2d
     fn, shape = case['fn'], case['shape']
-    u, base = make_points(case['seed'], shape, 0.0, 1.0, case['edge'], salt=1)
+    v = var_of(case)
+    if fn == 'Q2d' and v['xkind'] == 'complex':
+        v['xkind'] = 'f64'
+    kind = v['xkind']
+    u, base = make_points(case['seed'], shape, 0.0, 1.0, case['edge'], salt=1, kind=kind)
+    uarg = present(u, shape, v)
     ctx.label(fn, shape_label(shape), 'edge' if case['edge'] else 'interior')
+    nt = var_labels(ctx, v, shape)
     if fn == 'Qcon':
         n = case['n']
         ctx.label(n_class(n))
-        ctx.nt(n >= 6 or shape == 'pyfloat' or len(shape) != 1)
+        ctx.nt(nt or n >= 6 or isinstance(shape, str) or len(shape) != 1)
+        if v['pre32']:
+            call(ctx, 'float32', Qcon, n, as32(uarg))
         want_full = base ** 4 * sps.eval_jacobi(n, 0, 4, 2 * base * base - 1)
-        got = ctx.call(Qcon, n, u)
         want = shaped(want_full, shape)
-        U.check_shape(got, np.shape(want), 'Qcon', 'Qcon(%d, u) for u of shape %s' % (n, shape))
-        U.check_close(got, want, RT, 'Qcon:' + n_class(n), 'Qcon(n=%d) vs u^4 P_n^(0,4)(2u^2-1)' % n, atol=RT * float(np.max(np.abs(want_full))))
+        rt = rtol_of(v, n, RT)
+
+        def verify(got, bucket):
+            U.check_shape(got, np.shape(want), 'Qcon', 'Qcon(%d, u) for u of shape %s' % (n, shape))
+            U.check_close(got, want, rt, bucket, 'Qcon(n=%d, u: %s %s) vs u^4 P_n^(0,4)(2u^2-1)' % (n, kind, shape_label(shape)), atol=rt * float(np.max(np.abs(want_full))))
+        got = call(ctx, n_class(n), Qcon, n, uarg)
+        verify(got, 'Qcon:' + n_class(n))
+        reuse_check(ctx, v, 'Qcon:' + n_class(n), got, (uarg,), lambda: ctx.call(Qcon, n + 1, uarg), lambda: ctx.call(Qcon, n, uarg), verify)
     elif fn == 'Qbfs':
         n = case['n5']
         ctx.label('n=%d' % n)
-        ctx.nt(shape == 'pyfloat' or len(shape) != 1 or n >= 2)
+        ctx.nt(nt or isinstance(shape, str) or len(shape) != 1 or n >= 2)
         x = base * base
         want_full = x * (1 - x) * qbfs_table(n, x)
-        got = ctx.call(Qbfs, n, u)
         want = shaped(want_full, shape)
-        U.check_shape(got, np.shape(want), 'Qbfs', 'Qbfs(%d, u) for u of shape %s' % (n, shape))
-        U.check_close(got, want, 1e-10, 'Qbfs:table', 'Qbfs(n=%d) vs u^2(1-u^2) times Forbes tabulated Q_%d^bfs(u^2)' % (n, n), atol=1e-10)
-        # higher orders: same value whatever the shape of the argument
+        rt = rtol_of(v, n, 1e-10)
+        if v['pre32']:
+            call(ctx, 'float32', Qbfs, n, as32(uarg))
+            call(ctx, 'float32', Qbfs, case['n'], as32(uarg))
+
+        def verify(got, bucket):
+            U.check_shape(got, np.shape(want), 'Qbfs', 'Qbfs(%d, u) for u of shape %s' % (n, shape))
+            U.check_close(got, want, rt, bucket, 'Qbfs(n=%d, u: %s %s) vs u^2(1-u^2) times Forbes tabulated Q_%d^bfs(u^2)' % (n, kind, shape_label(shape), n), atol=rt)
+        got = call(ctx, 'n<=5', Qbfs, n, uarg)
+        verify(got, 'Qbfs:table')
+        # higher orders: same value whatever the shape / dtype / layout of the argument
         n2 = case['n']
         flat = ctx.call(Qbfs, n2, base.copy())
-        got2 = ctx.call(Qbfs, n2, u)
-        U.check_shape(got2, np.shape(want), 'Qbfs', 'Qbfs(%d, u) for u of shape %s' % (n2, shape))
-        U.check_close(got2, shaped(flat, shape), 1e-13, 'Qbfs:shape-dependence', 'Qbfs(n=%d) on shape %s vs the same points as a vector' % (n2, shape),
-                      atol=1e-13 * float(np.max(np.abs(flat))))
+        rt2 = rtol_of(v, n2, 1e-13)
+
+        def verify2(got2, bucket):
+            U.check_shape(got2, np.shape(want), 'Qbfs', 'Qbfs(%d, u) for u of shape %s' % (n2, shape))
+            U.check_close(got2, shaped(flat, shape), rt2, bucket, 'Qbfs(n=%d) on %s %s vs the same points as a float64 vector' % (n2, kind, shape_label(shape)),
+                          atol=rt2 * float(np.max(np.abs(flat))))
+        got2 = call(ctx, 'n>5', Qbfs, n2, uarg)
+        verify2(got2, 'Qbfs:shape-dependence')
+        reuse_check(ctx, v, 'Qbfs', got2, (uarg,), lambda: ctx.call(Qbfs, n2 + 1, uarg), lambda: ctx.call(Qbfs, n2, uarg), verify2)
     else:
         n, m = case['nq'], case['m']
-        ctx.label('m=0' if m == 0 else 'm<0' if m < 0 else 'm>0')
+        ctx.label('m=0' if m == 0 else 'm<0' if m < 0 else 'm>0', '|m|>10' if abs(m) > 10 else '|m|<=10', 'n>12' if n > 12 else 'n<=12')
         ctx.nt(True)
-        t, tbase = make_points(case['seed'], shape, -math.pi, 2 * math.pi, False, salt=2)
+        t, tbase = make_points(case['seed'], shape, -math.pi, 2 * math.pi, False, salt=2, kind='f32' if kind == 'f32' else 'f64')
+        targ = present(t, shape, v, layout=v['layout2'], kind='f32' if kind == 'f32' else 'f64')
+        if v['pre32']:
+            call(ctx, 'float32', Q2d, n, m, as32(uarg), as32(targ))
         flat = ctx.call(Q2d, n, m, base.copy(), tbase.copy())
-        got = ctx.call(Q2d, n, m, u, t)
-        U.check_shape(got, np.shape(shaped(flat, shape)), 'Q2d', 'Q2d(%d,%d) for u of shape %s' % (n, m, shape))
-        U.check_close(got, shaped(flat, shape), 1e-13, 'Q2d:shape-dependence', 'Q2d(n=%d, m=%d) on shape %s vs the same points as a vector' % (n, m, shape),
-                      atol=1e-13 * float(np.max(np.abs(flat))))
+        rt = rtol_of(v, n + abs(m), 1e-13)
+
+        def verify(got, bucket):
+            U.check_shape(got, np.shape(shaped(flat, shape)), 'Q2d', 'Q2d(%d,%d) for u of shape %s' % (n, m, shape))
+            U.check_close(got, shaped(flat, shape), rt, bucket, 'Q2d(n=%d, m=%d) on %s %s vs the same points as a float64 vector' % (n, m, kind, shape_label(shape)),
+                          atol=rt * float(np.max(np.abs(flat))))
+        got = call(ctx, 'm=0' if m == 0 else 'm!=0', Q2d, n, m, uarg, targ)
+        verify(got, 'Q2d:shape-dependence')
+        reuse_check(ctx, v, 'Q2d', got, (uarg, targ), lambda: ctx.call(Q2d, n + 1, -m, uarg, targ), lambda: ctx.call(Q2d, n, m, uarg, targ), verify)
         if m == 0:
             U.check_close(flat, ctx.call(Qbfs, n, base.copy()), 1e-13, 'Q2d:m=0', 'Q2d(n,0) must be Qbfs(n)')
         else:
@@ -514,7 +657,8 @@ def check_qbfs_gram(case, ctx):
     ctx.tally('gram_entries', (N + 1) ** 2)
     K = 2 * N + 8      # integrand degree <= 2(2N+3) = 4N+6 <= 2K-1
     un = cheb_nodes(K)
-    D = np.array([np.imag(ctx.call(Qbfs, n, un + 1j * H)) / H for n in range(N + 1)])
+    uc = U.relayout(un + 1j * H, 'strided' if N % 8 == 0 else 'C')      # N = 24, 40, 80: the nodes as a strided view
+    D = np.array([np.imag(call(ctx, 'gram', Qbfs, n, uc)) / H for n in range(N + 1)])
     G = D @ D.T / K     # (2/pi) * (1/2) * (pi/K) * sum over the symmetric nodes
     gram_assert(ctx, G, np.eye(N + 1), 1e-8, lambda i, j: ('Qbfs_gram:%s' % ('norm' if i == j else 'orthogonality'), "<S_%d', S_%d'>" % (i, j)))
     for n in range(0, N + 1, max(1, N // 12)):
@@ -525,8 +669,8 @@ def check_qbfs_gram(case, ctx):
 
 def strat_q2d_gram(tier):
     NN = {'quick': 8, 'thorough': 12}[tier]
-    fam = st.tuples(st.integers(0, 10), st.integers(0, NN)).map(list)
-    return st.fixed_dictionaries({'fams': st.lists(fam, min_size=1, max_size=4, unique_by=lambda t: t[0])})
+    fam = st.tuples(st.one_of(st.integers(0, 10), st.sampled_from([0, 1, 2, 3, 14, 20])), st.integers(0, NN)).map(list)
+    return st.fixed_dictionaries({'fams': st.lists(fam, min_size=1, max_size=4, unique_by=lambda t: t[0]), 'layout': U.layouts})
 
 
 def check_q2d_gram(case, ctx):
@@ -540,7 +684,9 @@ def check_q2d_gram(case, ctx):
     ctx.nt(True)
     ctx.tally('gram_entries', len(modes) ** 2)
     for am, N in fams:
-        ctx.label('m=0' if am == 0 else 'm=1' if am == 1 else 'm=2,3' if am <= 3 else 'm>3')
+        ctx.label('m=0' if am == 0 else 'm=1' if am == 1 else 'm=2,3' if am <= 3 else 'm=4..10' if am <= 10 else 'm>10')
+    lay = case.get('layout', 'C')
+    ctx.label('layout:' + lay)
     nmax = max(N for _, N in fams)
     mmax = max(am for am, _ in fams)
     K = 2 * nmax + mmax + 10     # degree in u of a product of two gradients <= 2 (2 nmax + mmax + 3)
@@ -549,10 +695,11 @@ def check_q2d_gram(case, ctx):
     un = cheb_nodes(K)
     th = 2 * np.pi * np.arange(T) / T
     Ug, Tg = np.meshgrid(un, th, indexing='ij')
+    Ur, Ui, Tr, Ti = (U.relayout(g, lay) for g in (Ug + 1j * H, Ug + 0j, Tg + 0j, Tg + 1j * H))      # same nodes, another memory layout
     rows = []
     for n, m in modes:
-        dr = np.imag(ctx.call(Q2d, n, m, Ug + 1j * H, Tg + 0j)) / H
-        dt = np.imag(ctx.call(Q2d, n, m, Ug + 0j, Tg + 1j * H)) / H / Ug
+        dr = np.imag(call(ctx, 'gram', Q2d, n, m, Ur, Tr)) / H
+        dt = np.imag(call(ctx, 'gram', Q2d, n, m, Ui, Ti)) / H / Ug
         rows.append(np.concatenate([dr.ravel(), dt.ravel()]))
     D = np.array(rows)
     G = D @ D.T * (np.pi / K) * (2 * np.pi / T) / 2 / np.pi ** 2
@@ -580,90 +727,163 @@ def _order_list(tier):
 
 def strat_seq(tier):
     nmax = {'quick': 20, 'thorough': 40}[tier]
+    vv = variants(('f64', 'f32', 'complex'))
+    shp = st.one_of(st.none(), st.none(), array_shapes(4))       # None: a vector of npts points; otherwise numpy scalar, 0-D ... 3-D
     one_d = st.sampled_from(FAMS).flatmap(lambda fam: st.fixed_dictionaries({
         'kind': st.just('1d'), 'fam': st.just(fam), 'ns': _order_list(tier), 'p': fam_params(fam), 'npts': st.integers(1, 9), 'seed': U.seeds,
-        'pre32': st.booleans()}))
-    zern = st.fixed_dictionaries({'kind': st.just('zernike'), 'nms': st.lists(nm_pairs(nmax), min_size=1, max_size=8), 'both_signs': st.booleans(),
-                                  'norm': st.booleans(), 'npts': st.integers(1, 9), 'seed': U.seeds})
-    q2d = st.fixed_dictionaries({'kind': st.just('q2d'), 'nms': st.lists(st.tuples(st.integers(0, 8), st.integers(-8, 8)).map(list), min_size=1, max_size=7),
-                                 'npts': st.integers(1, 9), 'seed': U.seeds})
-    q1d = st.fixed_dictionaries({'kind': st.sampled_from(['qbfs', 'qcon']), 'ns': _order_list('quick'), 'npts': st.integers(1, 9), 'seed': U.seeds})
+        'pre32': st.booleans(), 'shape': shp, 'v': vv}))
+    zern = st.fixed_dictionaries({'kind': st.just('zernike'), 'nms': st.lists(nm_pairs_ext(nmax), min_size=1, max_size=8), 'both_signs': st.booleans(),
+                                  'norm': st.booleans(), 'npts': st.integers(1, 9), 'seed': U.seeds, 'shape': shp, 'v': variants(('f64', 'f32'))})
+    q2d = st.fixed_dictionaries({'kind': st.just('q2d'), 'nms': st.lists(st.tuples(st.integers(0, 8), st.one_of(st.integers(-8, 8), st.sampled_from([-16, 16]))).map(list),
+                                                                         min_size=1, max_size=7),
+                                 'npts': st.integers(1, 9), 'seed': U.seeds, 'shape': shp, 'v': variants(('f64', 'f32'))})
+    q1d = st.fixed_dictionaries({'kind': st.sampled_from(['qbfs', 'qcon']), 'ns': _order_list('quick'), 'npts': st.integers(1, 9), 'seed': U.seeds,
+                                 'shape': shp, 'v': vv})
     return st.one_of(one_d, one_d, zern, zern, q2d, q1d)
+
+
+def seq_points(case, v, lo, hi, salt, kind=None):
+    """evaluation points of a sequence-form case: (argument, float64 points in the argument's shape, shape)"""
+    kind = kind or v['xkind']
+    shape = case.get('shape')
+    if shape is None:
+        shape = [case['npts']]
+    r_ = U.rng_of(case['seed'], salt)
+    pts = r_.uniform(lo, hi, size_of(shape))
+    if kind == 'f32':
+        pts = pts.astype(np.float32).astype(float)
+    x = pts.reshape(shape_tuple(shape))
+    return present(float(x) if isinstance(shape, str) else x, shape, v, kind=kind), x, shape
 
 
 def check_seq(case, ctx):
     """the *_seq evaluators return, mode for mode, the polynomial the definition specifies (scipy / exact radial sums / closed forms);
-    zernike_nm_seq with both signs of m and norm on/off, Q2d_seq with gaps in |m|."""
+    zernike_nm_seq with both signs of m and norm on/off, Q2d_seq with gaps in |m|; coordinates of any shape / layout, float64, float32 or
+    complex, order lists as list / tuple / array; arguments unchanged, results independent of each other."""
     from prysm import polynomials as P
     kind = case['kind']
-    r_ = U.rng_of(case['seed'], 31)
-    npts = case['npts']
     ctx.nt(True)
+    # integer-typed points are not generated: the unchanged sequence forms allocate their output in the dtype of the coordinates
     if kind == '1d':
         fam, ns, p = case['fam'], case['ns'], case['p']
         fn, (lo, hi) = fam_table()[fam]
         seqfn = getattr(P, fam + '_seq')
-        x = r_.uniform(lo, hi, npts)
-        ctx.label('seq:' + fam, 'gapped' if ns != list(range(ns[0], ns[0] + len(ns))) else 'contiguous', 'from0' if ns[0] == 0 else 'from>0')
-        if case.get('pre32', False):
+        v = settle_kind(var_of(case, ('f64', 'f32', 'complex')), fam, ns[-1])
+        xarg, x, shape = seq_points(case, v, lo, hi, 31)
+        ctx.label('seq:' + fam, 'gapped' if ns != list(range(ns[0], ns[0] + len(ns))) else 'contiguous', 'from0' if ns[0] == 0 else 'from>0', shape_label(shape),
+                  'ns-as:' + v['ns_as'])
+        var_labels(ctx, v, shape)
+        nsarg = contain(ns, v['ns_as'])
+        full = (len(ns),) + shape_tuple(shape)
+        if case.get('pre32', False) or v['pre32']:
             # a single-precision evaluation of the same orders first (same process): it is checked to single precision, and it
             # must leave nothing behind that degrades the double-precision evaluation that follows
             ctx.label('after-float32-call')
-            g32 = np.asarray(ctx.call(seqfn, ns, *p, x.astype(np.float32)))
-            U.check_shape(g32, (len(ns), npts), fam + '_seq:float32')
-        got = np.asarray(ctx.call(seqfn, ns, *p, x))
-        U.check_shape(got, (len(ns), npts), fam + '_seq')
-        for k, n in enumerate(ns):
-            want = ref_value(fam, n, p, x)
-            scale = float(np.max(np.abs(ref_value(fam, n, p, np.linspace(lo, hi, 9)))))
-            U.check_close(got[k], want, RT, '%s_seq:%s' % (fam, n_class(n)), '%s_seq(%s, %s)[%d] (order %d) vs scipy.special' % (fam, ns, p, k, n), atol=RT * scale)
+            g32 = np.asarray(call(ctx, 'float32', seqfn, nsarg, *p, as32(xarg)))
+            U.check_shape(g32, full, fam + '_seq:float32')
+        wants = [(ref_value(fam, n, p, x), float(np.max(np.abs(ref_value(fam, n, p, np.linspace(lo, hi, 9)))))) for n in ns]
+
+        def verify(got, suffix):
+            got = np.asarray(got)
+            U.check_shape(got, full, fam + '_seq' + suffix)
+            for k, n in enumerate(ns):
+                rt = rtol_of(v, n, RT)
+                U.check_close(got[k], wants[k][0], rt, '%s_seq:%s%s' % (fam, n_class(n), suffix), '%s_seq(%s, %s, x: %s %s)[%d] (order %d) vs scipy.special' % (
+                    fam, ns, p, v['xkind'], shape_label(shape), k, n), atol=rt * wants[k][1])
+        got = call(ctx, 'seq', seqfn, nsarg, *p, xarg)
+        verify(got, '')
+        ns2 = [n + 1 for n in ns][:-1] or [ns[0] + 1]
+        reuse_check(ctx, v, fam + '_seq', got, (xarg, nsarg), lambda: ctx.call(seqfn, ns2, *p, xarg), lambda: ctx.call(seqfn, nsarg, *p, xarg),
+                    lambda g, b: verify(g, b[len(fam + '_seq'):]))
         return
     if kind == 'zernike':
-        nms = [list(v) for v in case['nms']]
+        nms = [list(e) for e in case['nms']]
         if case['both_signs']:
             nms = nms + [[n, -m] for n, m in nms if m != 0]        # both (n,+m) and (n,-m) in one call
         norm = case['norm']
-        rr = r_.uniform(0, 1, npts)
-        tt = r_.uniform(-math.pi, math.pi, npts)
-        ctx.label('seq:zernike', 'norm' if norm else 'no-norm', 'both-signs' if case['both_signs'] else 'as-drawn')
-        got = np.asarray(ctx.call(P.zernike_nm_seq, [tuple(v) for v in nms], rr, tt, norm=norm))
-        U.check_shape(got, (len(nms), npts), 'zernike_nm_seq')
-        for k, (n, m) in enumerate(nms):
+        v = var_of(case, ('f64', 'f32'))
+        rarg, rr, shape = seq_points(case, v, 0, 1, 31)
+        targ, tt, _ = seq_points(case, v, -math.pi, math.pi, 32)
+        ctx.label('seq:zernike', 'norm' if norm else 'no-norm', 'both-signs' if case['both_signs'] else 'as-drawn', shape_label(shape), 'nms-as:' + v['ns_as'])
+        var_labels(ctx, v, shape)
+        nmarg = [tuple(e) for e in nms] if v['ns_as'] == 'list' else tuple(tuple(e) for e in nms) if v['ns_as'] == 'tuple' else np.array(nms)
+        full = (len(nms),) + shape_tuple(shape)
+        if v['pre32']:
+            call(ctx, 'float32', P.zernike_nm_seq, nmarg, as32(rarg), as32(targ), norm=norm)
+        wants = []
+        for n, m in nms:
             am = abs(m)
             az = np.ones_like(tt) if m == 0 else np.sin(am * tt) if m < 0 else np.cos(m * tt)
             N = math.sqrt(2 * (n + 1) / (2 if m == 0 else 1)) if norm else 1.0
-            want = N * zernike_radial_exact(n, am, rr) * az
-            U.check_close(got[k], want, RT, 'zernike_nm_seq:%s' % ('norm' if norm else 'no-norm'),
-                          'zernike_nm_seq(%s, norm=%s)[%d] = (n=%d, m=%d) vs explicit radial sum' % (nms, norm, k, n, m), atol=RT * N)
+            wants.append((N * zernike_radial_exact(n, am, rr).reshape(rr.shape) * az, N))
+
+        def verify(got, suffix):
+            got = np.asarray(got)
+            U.check_shape(got, full, 'zernike_nm_seq' + suffix)
+            for k, (n, m) in enumerate(nms):
+                rt = rtol_of(v, n, RT)
+                U.check_close(got[k], wants[k][0], rt, 'zernike_nm_seq:%s%s' % ('norm' if norm else 'no-norm', suffix),
+                              'zernike_nm_seq(%s, norm=%s, r: %s %s)[%d] = (n=%d, m=%d) vs explicit radial sum' % (nms, norm, v['xkind'], shape_label(shape), k, n, m),
+                              atol=rt * wants[k][1])
+        got = call(ctx, 'seq', P.zernike_nm_seq, nmarg, rarg, targ, norm=norm)
+        verify(got, '')
+        other = [tuple(e) for e in reversed(nms)] + [(4, 2)]
+        reuse_check(ctx, v, 'zernike_nm_seq', got, (rarg, targ), lambda: ctx.call(P.zernike_nm_seq, other, rarg, targ, norm=not norm),
+                    lambda: ctx.call(P.zernike_nm_seq, nmarg, rarg, targ, norm=norm), lambda g, b: verify(g, b[len('zernike_nm_seq'):]))
         return
     if kind == 'q2d':
         nms = [[n, m] for n, m in case['nms']]
-        uu = r_.uniform(0.05, 1, npts)
-        tt = r_.uniform(-math.pi, math.pi, npts)
+        v = var_of(case, ('f64', 'f32'))
+        uarg, uu, shape = seq_points(case, v, 0.05, 1, 31)
+        targ, tt, _ = seq_points(case, v, -math.pi, math.pi, 32)
         ams = sorted({abs(m) for _, m in nms})
-        ctx.label('seq:q2d', 'm-gap' if ams != list(range(ams[0], ams[0] + len(ams))) else 'm-dense')
-        got = np.asarray(ctx.call(P.Q2d_seq, [tuple(v) for v in nms], uu, tt))
-        U.check_shape(got, (len(nms), npts), 'Q2d_seq')
-        for k, (n, m) in enumerate(nms):
-            # the single-order routine is pinned by q2d_gram (uniqueness of the orthonormal slope basis) and q_values in this property
-            want = np.asarray(ctx.call(P.Q2d, n, m, uu, tt))
-            U.check_close(got[k], want, 1e-9, 'Q2d_seq', 'Q2d_seq(%s)[%d] = (n=%d, m=%d) vs Q2d' % (nms, k, n, m), atol=1e-9 * max(1.0, float(np.max(np.abs(want)))))
+        ctx.label('seq:q2d', 'm-gap' if ams != list(range(ams[0], ams[0] + len(ams))) else 'm-dense', shape_label(shape))
+        var_labels(ctx, v, shape)
+        full = (len(nms),) + shape_tuple(shape)
+        nmarg = [tuple(e) for e in nms]
+        if v['pre32']:
+            call(ctx, 'float32', P.Q2d_seq, nmarg, as32(uarg), as32(targ))
+        # the single-order routine is pinned by q2d_gram (uniqueness of the orthonormal slope basis) and q_values in this property
+        wants = [np.asarray(ctx.call(P.Q2d, n, m, uu, tt)) for n, m in nms]
+
+        def verify(got, suffix):
+            got = np.asarray(got)
+            U.check_shape(got, full, 'Q2d_seq' + suffix)
+            for k, (n, m) in enumerate(nms):
+                rt = rtol_of(v, n + abs(m), 1e-9)
+                U.check_close(got[k], wants[k], rt, 'Q2d_seq' + suffix, 'Q2d_seq(%s, u: %s %s)[%d] = (n=%d, m=%d) vs Q2d' % (nms, v['xkind'], shape_label(shape), k, n, m),
+                              atol=rt * max(1.0, float(np.max(np.abs(wants[k])))))
+        got = call(ctx, 'seq', P.Q2d_seq, nmarg, uarg, targ)
+        verify(got, '')
+        other = [(n + 1, -m) for n, m in nms][:-1] + [(0, 3)]
+        reuse_check(ctx, v, 'Q2d_seq', got, (uarg, targ), lambda: ctx.call(P.Q2d_seq, other, uarg, targ), lambda: ctx.call(P.Q2d_seq, nmarg, uarg, targ),
+                    lambda g, b: verify(g, b[len('Q2d_seq'):]))
         return
     ns = case['ns']
-    uu = r_.uniform(0, 1, npts)
-    ctx.label('seq:' + kind)
+    v = var_of(case, ('f64', 'f32', 'complex'))
+    uarg, uu, shape = seq_points(case, v, 0, 1, 31)
+    ctx.label('seq:' + kind, shape_label(shape), 'ns-as:' + v['ns_as'])
+    var_labels(ctx, v, shape)
+    nsarg = contain(ns, v['ns_as'])
+    full = (len(ns),) + shape_tuple(shape)
+    seqfn, name = (P.Qcon_seq, 'Qcon_seq') if kind == 'qcon' else (P.Qbfs_seq, 'Qbfs_seq')
+    if v['pre32']:
+        call(ctx, 'float32', seqfn, nsarg, as32(uarg))
     if kind == 'qcon':
-        got = np.asarray(ctx.call(P.Qcon_seq, ns, uu))
-        U.check_shape(got, (len(ns), npts), 'Qcon_seq')
-        for k, n in enumerate(ns):
-            want = uu ** 4 * sps.eval_jacobi(n, 0, 4, 2 * uu * uu - 1)
-            U.check_close(got[k], want, RT, 'Qcon_seq', 'Qcon_seq(%s)[%d] vs u^4 P_n^(0,4)(2u^2-1)' % (ns, k), atol=RT)
+        wants = [uu ** 4 * sps.eval_jacobi(n, 0, 4, 2 * uu * uu - 1) for n in ns]
     else:
-        got = np.asarray(ctx.call(P.Qbfs_seq, ns, uu))
-        U.check_shape(got, (len(ns), npts), 'Qbfs_seq')
+        wants = [qbfs_table(n, uu * uu) * (uu * uu) * (1 - uu * uu) if n <= 5 else np.asarray(ctx.call(P.Qbfs, n, uu)) for n in ns]
+
+    def verify(got, suffix):
+        got = np.asarray(got)
+        U.check_shape(got, full, name + suffix)
         for k, n in enumerate(ns):
-            want = qbfs_table(n, uu * uu) * (uu * uu) * (1 - uu * uu) if n <= 5 else np.asarray(ctx.call(P.Qbfs, n, uu))
-            U.check_close(got[k], want, RT, 'Qbfs_seq', 'Qbfs_seq(%s)[%d] (order %d)' % (ns, k, n), atol=RT)
+            rt = rtol_of(v, n, RT)
+            U.check_close(got[k], wants[k], rt, name + suffix, '%s(%s, u: %s %s)[%d] (order %d)' % (name, ns, v['xkind'], shape_label(shape), k, n), atol=rt)
+    got = call(ctx, 'seq', seqfn, nsarg, uarg)
+    verify(got, '')
+    ns2 = [n + 1 for n in ns][:-1] or [ns[0] + 1]
+    reuse_check(ctx, v, name, got, (uarg, nsarg), lambda: ctx.call(seqfn, ns2, uarg), lambda: ctx.call(seqfn, nsarg, uarg), lambda g, b: verify(g, b[len(name):]))
 
 
 CLAUSES = [
